@@ -346,6 +346,9 @@ class Interp:
             return [Outcome('next', env)]
         from . import poly as _poly
         _poly.ORDER_FACTS[:] = list(env.get('$order', ()))
+        ein = self.opts.get('expand_in')
+        if ein is not None:
+            _poly.EXPAND[0] = self.where() in ein
         return m(st, env)
 
     def add_order(self, env, test, pol):
